@@ -50,6 +50,9 @@ type world struct {
 	sealed []bool
 	big    bool
 	huge   int // 0 = no; 1..4 = values beyond the int64 range (see hugePools)
+	// "" = ordinary; "extreme" = magnitudes near overflow/underflow, signed zeros, cancelling values;
+	// "malformed" = general decimals plus tokens parseNum rejects. Only float cases are emitted for these.
+	fkind string
 }
 
 var groupNames = map[string][]string{
@@ -140,6 +143,9 @@ func exactValue(r *rng.R, k int64) string {
 // generalValue: a decimal token whose float64 value is in general not a short dyadic.
 func generalValue(r *rng.R) string {
 	mant := r.Intn(1000000)
+	if mant == 0 {
+		mant = 1 // never "-0.000": the wire conversion does not keep the sign of a zero (see runSearch)
+	}
 	var s string
 	switch r.Intn(4) {
 	case 0:
@@ -184,6 +190,13 @@ func genWorld(seed uint64, idx int, tier string) *world {
 		w.huge = (idx/10)%4 + 1
 		w.exact = w.huge != 4
 	}
+	if idx%10 == 3 && !w.big {
+		w.exact = false
+		w.fkind = "extreme"
+		if (idx/10)%2 == 1 {
+			w.fkind = "malformed"
+		}
+	}
 	// value pool (few distinct tokens in a big world)
 	pool := make([]string, 0)
 	np := r.Range(2, 25)
@@ -193,6 +206,9 @@ func genWorld(seed uint64, idx int, tier string) *world {
 		pool = hp[:r.Range(2, len(hp))]
 		np = 0
 	}
+	if w.fkind != "" {
+		np = r.Range(0, 4)
+	}
 	for i := 0; i < np; i++ {
 		if w.exact {
 			lim := int64(1 << uint(r.Range(3, 16)))
@@ -200,6 +216,20 @@ func genWorld(seed uint64, idx int, tier string) *world {
 		} else {
 			pool = append(pool, generalValue(r))
 		}
+	}
+	switch w.fkind {
+	case "extreme":
+		ep := append([]string{}, extremePool...)
+		rng.Shuffle(r, ep)
+		pool = append(pool, ep[:r.Range(2, 7)]...)
+	case "malformed":
+		bp := append([]string{}, badPool...)
+		rng.Shuffle(r, bp)
+		pool = append(pool, generalValue(r), generalValue(r))
+		pool = append(pool, bp[:r.Range(1, 3)]...)
+	}
+	if !w.exact && len(pool) > 12 {
+		pool = pool[:12] // at most 12 distinct field tokens per bin: the map-order witness search stays small
 	}
 	span := uint64(r.Range(1, 5000))
 	w.fracs = make([][]doc, nf)
@@ -346,6 +376,20 @@ func genSearch(r *rng.R, w *world) searchSpec {
 		}
 		s.aggs = append(s.aggs, a)
 	}
+	return s
+}
+
+// floatOnlySearch: one aggregation over a numeric field, no histogram (extreme / malformed worlds)
+func floatOnlySearch(s searchSpec) searchSpec {
+	s.hist = 0
+	a := s.aggs[0]
+	if a.field == "" {
+		a.fn, a.field = seq.AggFuncSum, "v"
+	}
+	if a.fn == seq.AggFuncQuantile {
+		a.fn, a.quants = seq.AggFuncAvg, nil
+	}
+	s.aggs = []aggSpec{a}
 	return s
 }
 
@@ -664,12 +708,18 @@ func runSearch(w *world, fracs fracmanager.List, si int, s searchSpec, r *rng.R,
 		}
 	}
 	leaves := make([]*seq.QPR, len(fracs))
+	leafErr := map[int]string{}
 	var live []int
 	for i, f := range fracs {
 		if !inRange[i] {
 			continue
 		}
 		qpr, err := fracSearch(f, params)
+		if err != nil && w.fkind == "malformed" && strings.Contains(err.Error(), "parse errors reached") {
+			leafErr[i] = err.Error()
+			live = append(live, i)
+			continue
+		}
 		if err != nil {
 			viol("search-error", "per-fraction search failed: "+err.Error(), map[string]any{"fraction": i})
 			return
@@ -677,10 +727,31 @@ func runSearch(w *world, fracs fracmanager.List, si int, s searchSpec, r *rng.R,
 		leaves[i] = qpr
 		live = append(live, i)
 	}
+	if w.fkind == "malformed" {
+		// which fractions fail, and does the Searcher fail: parseNum rejects NaN / Inf / unparsable tokens
+		for _, i := range live {
+			_, bad := leafErr[i]
+			emitFErr(w, s, si, fmt.Sprintf("fraction %d", i), []int{i}, s.aggs[0], bad, leafErr[i], baseInput, res)
+		}
+		_, serr := guard(func() (*seq.QPR, error) { return fracbuild.Search(fracs, q, 0) })
+		txt := ""
+		if serr != nil {
+			txt = serr.Error()
+			if !strings.Contains(txt, "parse errors reached") {
+				viol("search-error", "Searcher.SearchDocs failed: "+txt, nil)
+				return
+			}
+		}
+		emitFErr(w, s, si, "searcher", live, s.aggs[0], serr != nil, txt, baseInput, res)
+		if len(leafErr) > 0 || serr != nil {
+			return
+		}
+	}
 	// trees
 	type treeRun struct {
-		t   *tree
-		qpr *seq.QPR
+		t     *tree
+		qpr   *seq.QPR
+		leafQ []*seq.QPR // the per-fraction results this run merged (nil: evaluated inside the Searcher)
 	}
 	var runs []treeRun
 	ntrees := 2
@@ -694,12 +765,19 @@ func runSearch(w *world, fracs fracmanager.List, si int, s searchSpec, r *rng.R,
 		if w.big {
 			stripConv(t)
 		}
+		if w.fkind == "extreme" {
+			// no conversions in these worlds: (1) a Sum that overflowed to +-Inf / NaN cannot be marshalled by
+			// encoding/json (AggregatableSamples' JSON form fails with "unsupported value"); (2) the proto3
+			// wire form omits a double that compares equal to 0, so a Min/Max of -0.0 comes back as +0.0
+			// (numerically equal, but not bit-identical). Both are reported as findings, not exercised here.
+			stripConv(t)
+		}
 		qpr, err := guard(func() (*seq.QPR, error) { return evalTree(t, leaves, s) })
 		if err != nil {
 			viol("merge-error", "merging/conversion failed: "+err.Error(), map[string]any{"tree": t.String()})
 			continue
 		}
-		runs = append(runs, treeRun{t, qpr})
+		runs = append(runs, treeRun{t, qpr, leaves})
 	}
 	{ // the real Searcher over all fractions
 		fpi := r.Intn(3)
@@ -708,13 +786,14 @@ func runSearch(w *world, fracs fracmanager.List, si int, s searchSpec, r *rng.R,
 			viol("search-error", "Searcher.SearchDocs failed: "+err.Error(), map[string]any{"fractions_per_iteration": fpi})
 		} else {
 			t := &tree{leaf: -2, children: []*tree{{leaf: -1}}}
-			for _, i := range live {
+			// total (fresh) + the fractions in the Searcher's own order (prepareFracs sorts them)
+			for _, i := range searcherOrder(fracs, live, s.reverse) {
 				t.children = append(t.children, &tree{leaf: i})
 			}
 			if len(t.children) == 1 {
 				t = &tree{leaf: -1}
 			}
-			runs = append(runs, treeRun{t, qpr})
+			runs = append(runs, treeRun{t, qpr, nil})
 		}
 	}
 	for ti, run := range runs {
@@ -722,9 +801,12 @@ func runSearch(w *world, fracs fracmanager.List, si int, s searchSpec, r *rng.R,
 			if only != nil && !only(ti, ai) {
 				continue
 			}
-			emitAgg(w, s, si, ti, ai, a, run.t, run.qpr, live, baseInput, res)
+			if w.fkind == "" {
+				emitAgg(w, s, si, ti, ai, a, run.t, run.qpr, live, baseInput, res)
+			}
+			emitAggF(w, s, si, ti, ai, a, run.t, run.qpr, live, run.leafQ, baseInput, res)
 		}
-		if s.hist > 0 && (only == nil || only(ti, -1)) {
+		if s.hist > 0 && w.fkind == "" && (only == nil || only(ti, -1)) {
 			emitHist(w, s, si, ti, run.t, run.qpr, live, baseInput, res)
 		}
 	}
@@ -1076,6 +1158,9 @@ func runWorld(seed uint64, idx int, tier string, nsearch int, only func(search, 
 	}
 	for si := 0; si < nsearch; si++ {
 		s := genSearch(r, w)
+		if w.fkind != "" {
+			s = floatOnlySearch(s)
+		}
 		rs := r.Fork()
 		var o func(int, int) bool
 		if only != nil {
@@ -1102,7 +1187,7 @@ func main() {
 		fmt.Fprintln(os.Stderr, "need -out")
 		os.Exit(2)
 	}
-	w, err := casefile.New(*out, "C06", "From C06 Require Import Model CaseDefs.", 40)
+	w, err := casefile.New(*out, "C06", "From C06 Require Import Model ModelFloat CaseDefs.", 55)
 	if err != nil {
 		panic(err)
 	}
@@ -1145,7 +1230,7 @@ func main() {
 		flush(res)
 	}
 	flush(emitKeys(*seed, *tier))
-	w.Extra["float_policy"] = "exact worlds (3 of 4): values k/16, sums bit-exact, avg correctly rounded; tolerant worlds: general decimals, sum/avg within 1e-9 of the sum of magnitudes"
+	w.Extra["float_policy"] = "every sum/min/max/avg/quantile aggregation is also emitted as a float case (CAggF): Min/Max/Sum bit patterns of every bin and the bucket values are compared BIT-EXACTLY with the IEEE binary64 replay of the recorded merge tree (general decimals, huge/tiny magnitudes, signed zeros, cancelling values, overflow to Inf/NaN); spec: Sum within N*2^-52*sum|x| of the exact rational sum, Min/Max exact, Avg = RNE(Sum/Total). The exact-integer model cases (CAgg) of general-decimal worlds keep their coarse 1e-9 comparison of Sum/Avg, which is redundant now."
 	if err := w.Close(); err != nil {
 		panic(err)
 	}
